@@ -80,7 +80,7 @@ func elemZero(t lty) (string, bool) {
 func (t *loopTr) elemGoType(e ast.Expr) (lty, bool) {
 	s := exprStr(e)
 	switch s {
-	case "fp.Element":
+	case "fp.Element", "*fp.Element":
 		return tK, true
 	case "[]fp.Element":
 		return tListK, true
@@ -153,7 +153,7 @@ func (t *loopTr) elemType(e ast.Expr) (lty, bool) {
 		if _, _, ok := t.fieldPath(e); ok {
 			return tK, true
 		}
-		if s := exprStr(e); s == "bandersnatch.CurveParams.A" {
+		if s := exprStr(e); s == "bandersnatch.CurveParams.A" || s == "CurveParams.A" || s == "CurveParams.D" {
 			return tK, true
 		}
 	case *ast.Ident:
@@ -196,6 +196,8 @@ func (t *loopTr) elemType(e ast.Expr) (lty, bool) {
 				return tBool, true
 			case rt == tK && sel.Sel.Name == "Legendre":
 				return tInt, true
+			case rt == tK && sel.Sel.Name == "Neg":
+				return tK, true
 			case rt == tAff && sel.Sel.Name == "IsOnCurve":
 				return tBool, true
 			case rt == tPt:
@@ -217,8 +219,11 @@ func (t *loopTr) elemVal(e ast.Expr) (string, bool) {
 		if base, f, ok := t.fieldPath(e); ok {
 			return "(" + t.valExpr(base) + ")." + f, true
 		}
-		if exprStr(e) == "bandersnatch.CurveParams.A" {
+		if s := exprStr(e); s == "bandersnatch.CurveParams.A" || s == "CurveParams.A" {
 			return "E.a", true
+		}
+		if exprStr(e) == "CurveParams.D" {
+			return "E.d", true
 		}
 	case *ast.Ident:
 		if x.Name == "Identity" {
@@ -259,6 +264,10 @@ func (t *loopTr) elemVal(e ast.Expr) (string, bool) {
 			switch {
 			case rt == tK && sel.Sel.Name == "Bytes" && len(x.Args) == 0:
 				return "(E.encBE " + t.valExpr(sel.X) + ")", true
+			case rt == tK && sel.Sel.Name == "LexicographicallyLargest" && len(x.Args) == 0:
+				return "(E.lex " + t.valExpr(sel.X) + ")", true
+			case rt == tK && sel.Sel.Name == "Neg" && len(x.Args) == 1:
+				return "(-" + t.valExpr(x.Args[0]) + ")", true
 			case rt == tAff && sel.Sel.Name == "IsOnCurve":
 				return "(E.affOnCurve " + t.valExpr(sel.X) + ")", true
 			case rt == tPt:
@@ -297,6 +306,13 @@ func (t *loopTr) elemCall(f *loopFn, recv ast.Expr, args []ast.Expr) string {
 }
 
 func (t *loopTr) elemCond(e ast.Expr) (string, bool) {
+	if b, ok := e.(*ast.BinaryExpr); ok && (b.Op == token.EQL || b.Op == token.NEQ) && t.typeOf(b.X) == tBool && t.typeOf(b.Y) == tBool {
+		op := "="
+		if b.Op == token.NEQ {
+			op = "≠"
+		}
+		return "(" + t.valExpr(b.X) + " " + op + " " + t.valExpr(b.Y) + ")", true
+	}
 	switch x := e.(type) {
 	case *ast.Ident:
 		if t.vars[x.Name] == tBool {
@@ -433,27 +449,47 @@ func (t *loopTr) elemStmt(ind string, s ast.Stmt, rest []ast.Stmt, k, cont strin
 			}
 			if c, ok := x.Rhs[0].(*ast.CallExpr); ok {
 				fn := exprStr(c.Fun)
-				// `point := bandersnatch.GetPointFromX(&x, b)` followed by `if point == nil { return … }`
-				if fn == "bandersnatch.GetPointFromX" && x.Tok == token.DEFINE {
-					name := exprStr(x.Lhs[0])
-					if len(rest) == 0 {
-						die("elements: %s: result of GetPointFromX is not checked", t.cur.name)
+				// `v := f(…)` for a callee that may return nil, followed by `if v == nil { return … }`
+				if x.Tok == token.DEFINE {
+					var callee string
+					var rty lty
+					switch fn {
+					case "bandersnatch.GetPointFromX":
+						g := t.fns["GetPointFromX"]
+						if g == nil {
+							die("elements: GetPointFromX used before it is translated")
+						}
+						callee, rty = t.elemCall(g, nil, c.Args), tAff
+					case "computeY":
+						g := t.fns["computeY"]
+						if g == nil {
+							die("elements: computeY used before it is translated")
+						}
+						callee, rty = t.elemCall(g, nil, c.Args), tK
+					case "fp.SqrtPrecomp":
+						callee, rty = "E.sqrt "+t.valExpr(c.Args[0]), tK
 					}
-					chk, ok := rest[0].(*ast.IfStmt)
-					if !ok || exprStr(chk.Cond) != name+" == nil" || len(chk.Body.List) != 1 {
-						die("elements: %s: result of GetPointFromX is not checked immediately", t.cur.name)
+					if callee != "" {
+						name := exprStr(x.Lhs[0])
+						if len(rest) == 0 {
+							die("elements: %s: result of %s is not checked", t.cur.name, fn)
+						}
+						chk, ok := rest[0].(*ast.IfStmt)
+						if !ok || exprStr(chk.Cond) != name+" == nil" || len(chk.Body.List) != 1 || chk.Else != nil {
+							die("elements: %s: result of %s is not checked immediately", t.cur.name, fn)
+						}
+						if _, ok := chk.Body.List[0].(*ast.ReturnStmt); !ok {
+							die("elements: %s: nil branch of %s does not return", t.cur.name, fn)
+						}
+						fmt.Fprintf(t.sb, "%smatch %s with\n%s| none =>\n", ind, callee, ind)
+						saved := t.snapshot()
+						t.block(ind+"  ", chk.Body.List, "", cont)
+						t.restore(saved)
+						fmt.Fprintf(t.sb, "%s| some %s =>\n", ind, name)
+						t.vars[name] = rty
+						t.block(ind+"  ", rest[1:], k, cont)
+						return true, true
 					}
-					if _, ok := chk.Body.List[0].(*ast.ReturnStmt); !ok {
-						die("elements: %s: nil branch of GetPointFromX does not return", t.cur.name)
-					}
-					fmt.Fprintf(t.sb, "%smatch E.getPointFromX %s %s with\n%s| none =>\n", ind, t.valExpr(c.Args[0]), t.valExpr(c.Args[1]), ind)
-					saved := t.snapshot()
-					t.block(ind+"  ", chk.Body.List, "", cont)
-					t.restore(saved)
-					fmt.Fprintf(t.sb, "%s| some %s =>\n", ind, name)
-					t.vars[name] = tAff
-					t.block(ind+"  ", rest[1:], k, cont)
-					return true, true
 				}
 				// `err := f(…)` followed by `if err != nil { return err }`
 				if x.Tok == token.DEFINE && exprStr(x.Lhs[0]) == "err" {
@@ -697,6 +733,26 @@ func (t *loopTr) elemReturn(r *ast.ReturnStmt) string {
 		}
 		return f.retVar
 	}
+	if f.nilable {
+		if len(r.Results) != 1 {
+			die("elements: %s: unsupported return", f.name)
+		}
+		e := r.Results[0]
+		if exprStr(e) == "nil" {
+			return "none"
+		}
+		if u, ok := e.(*ast.UnaryExpr); ok && u.Op == token.AND {
+			if cl, ok := u.X.(*ast.CompositeLit); ok && exprStr(cl.Type) == "PointAffine" && len(cl.Elts) == 2 {
+				vals := map[string]string{}
+				for _, el := range cl.Elts {
+					kv := el.(*ast.KeyValueExpr)
+					vals[exprStr(kv.Key)] = t.valExpr(kv.Value)
+				}
+				return "some (⟨" + vals["X"] + ", " + vals["Y"] + "⟩ : Aff K)"
+			}
+		}
+		return "some " + t.valExpr(e)
+	}
 	if f.option {
 		last := exprStr(r.Results[len(r.Results)-1])
 		if last == "nil" {
@@ -794,6 +850,12 @@ func (t *loopTr) elemFn(file *ast.File, goName string) {
 		default:
 			f.results = []lty{tUnit}
 		}
+	case "*fp.Element":
+		f.option, f.nilable = true, true
+		f.results = []lty{tK}
+	case "*PointAffine":
+		f.option, f.nilable = true, true
+		f.results = []lty{tAff}
 	case "*Element":
 		if !ptrRecv {
 			die("elements: %s: returns *Element without pointer receiver", goName)
@@ -868,6 +930,9 @@ func translateElements(repo string, write func(name, imports, content string)) {
 		die("elements: unsupported initialiser of Identity")
 	}
 	t.sb.WriteString("/-- the package variable `Identity` -/\ndef identity : Proj K := " + lit + "\n\n")
+	bs := parse(filepath.Join(repo, "bandersnatch/bandersnatch.go"))
+	t.elemFn(bs, "computeY")
+	t.elemFn(bs, "GetPointFromX")
 	order := []string{"Bytes", "BytesUncompressedTrusted", "ElementsToBytes", "BatchToBytesUncompressed",
 		"subgroupCheck", "setBytes", "SetBytes", "SetBytesUnsafe", "SetBytesUncompressed",
 		"mapToBaseField", "MapToScalarField", "BatchMapToScalarField", "Equal",
@@ -879,13 +944,13 @@ func translateElements(repo string, write func(name, imports, content string)) {
 	var left []string
 	for _, d := range el.Decls {
 		if f, ok := d.(*ast.FuncDecl); ok {
-			if _, ok := t.fns[f.Name.Name]; !ok {
+			if _, ok := t.fns[f.Name.Name]; !ok || f.Name.Name == "computeY" || f.Name.Name == "GetPointFromX" {
 				left = append(left, f.Name.Name)
 			}
 		}
 	}
 	sort.Strings(left)
-	names := append([]string{}, order...)
+	names := append([]string{"computeY", "GetPointFromX"}, order...)
 	sort.Strings(names)
 	t.sb.WriteString("end\n\ndef translated : List String := [" + quoteAll(names) + "]\n\n/-- functions of the file that are not translated -/\ndef notTranslated : List String := [" + quoteAll(left) + "]\n\nend Elements\n")
 	write("Elements.lean", "import GoIpa.Model.Loop\nimport GoIpa.Model.ElemEnv\n", t.sb.String())
